@@ -247,7 +247,16 @@ func GenCommands(r *rand.Rand, sp DBSpec) []Cmd {
 		if sp.TieHeavy {
 			for k := r.Intn(4); k > 0 && len(out) < sp.N; k-- {
 				d := cloneCmd(c)
-				switch r.Intn(4) {
+				switch r.Intn(7) {
+				case 4: // differs only in its tags
+					d.Tags = []string{Word(r, local)}
+					if r.Intn(2) == 0 {
+						d.Tags = append(d.Tags, Word(r, local))
+					}
+				case 5: // differs only in its keywords
+					d.Keywords = append([]string{Word(r, local)}, d.Keywords...)
+				case 6: // differs only in platform / pipeline attributes (not indexed)
+					d.Pipeline = !d.Pipeline
 				case 0: // exact duplicate
 				case 1: // differs only in an unindexed field
 					d.Niche = Word(r, local)
